@@ -108,7 +108,7 @@ def make_cases(ctx):
                       'odd_offsets': r2.random() < 0.05})
         nf = r2.choice([1, 2, 3, 5])
         tys = [g2.rand_type(r2.choice([1, 2, 3])) for _ in range(nf)]
-        aliases = {k: r2.choice(['Alias', 'my-key', 'x.y', 'with space', "quo'te", 'K%d' % k]) for k in range(nf) if r2.random() < 0.15}
+        aliases = {k: r2.choice(['Alias', 'my-key', 'x.y', 'with space', "quo'te", 'K']) + str(k) * (k > 0) for k in range(nf) if r2.random() < 0.15}
         tag = r2.choice([None, None, None, 'root-tag'])
         root = g2.root(tys, tag=tag, aliases=aliases, bases=['JSONWizard'] if j % 2 == 0 else [])
         # tags on nested dataclasses
